@@ -53,6 +53,8 @@ type jNode struct {
 	Drifted   bool   `json:"drifted,omitempty"`
 	Pods      int    `json:"pods,omitempty"`
 	Nominated bool   `json:"nominated,omitempty"`
+	Pinned    bool   `json:"pods_pinned,omitempty"`    // the pods select a label only this node has: they cannot move
+	Anchor    bool   `json:"do_not_disrupt,omitempty"` // spare capacity that is never a candidate
 }
 
 func poolName(id int) string {
@@ -176,10 +178,15 @@ func (w *world) addNode(n jNode) {
 			nl[k] = v
 		}
 		nl[v1.NodeRegisteredLabelKey] = "true"
+		nl["verif/pin"] = name
 		if n.Init {
 			nl[v1.NodeInitializedLabelKey] = "true"
 		}
-		node := test.Node(test.NodeOptions{ObjectMeta: metav1.ObjectMeta{Name: name, Labels: nl, Finalizers: []string{"karpenter.sh/test-finalizer"}},
+		ann := map[string]string{}
+		if n.Anchor {
+			ann[v1.DoNotDisruptAnnotationKey] = "true"
+		}
+		node := test.Node(test.NodeOptions{ObjectMeta: metav1.ObjectMeta{Name: name, Labels: nl, Annotations: ann, Finalizers: []string{"karpenter.sh/test-finalizer"}},
 			ProviderID: providerID(n.ID), Allocatable: alloc, Capacity: alloc})
 		switch n.Ready {
 		case "":
@@ -202,7 +209,12 @@ func (w *world) addNode(n jNode) {
 		}
 	}
 	for i := 0; i < n.Pods; i++ {
+		var sel map[string]string
+		if n.Pinned {
+			sel = map[string]string{"verif/pin": name}
+		}
 		pod := test.Pod(test.PodOptions{
+			NodeSelector: sel,
 			ObjectMeta: metav1.ObjectMeta{Name: fmt.Sprintf("pod-%03d-%d", n.ID, i), Namespace: "default",
 				OwnerReferences: []metav1.OwnerReference{{APIVersion: "apps/v1", Kind: "ReplicaSet", Name: "rs", UID: "rs-uid", Controller: ptr(true), BlockOwnerDeletion: ptr(true)}}},
 			NodeName:             name,
